@@ -54,12 +54,13 @@ theorem C10_dialect_differences (ver : Ver) :
   refine ⟨rfl, rfl, rfl, rfl, rfl, rfl⟩
 
 /-- EMHEADER1 length code: dust-dds and the book choice agree on every member type except
-    (a) sequences of primitive elements (dust-dds: always 5), (b) appendable / mutable structures and sequences whose
+    (a) sequences of primitive elements (dust-dds: always 5), (b) appendable / mutable structures, appendable unions and sequences whose
     value happens to be 1, 2, 4 or 8 bytes long (dust-dds: 5, book: 0..3), (c) arrays of non-primitive elements of
     another size (dust-dds: 4, book: 5).  (b) and (c) are both valid encodings; (a) is not (finding D62). -/
 theorem C10_lc_differences (t : Ty) (size : Nat) (h : Spec.lcDust t size ≠ Spec.lcStd .v2 t size) :
     (∃ p, t = .seq (.prim p)) ∨
-    ((∃ ms, t = .struct .appendable ms) ∨ (∃ ms, t = .struct .mutable ms) ∨ (∃ el, t = .seq el)) ∧
+    ((∃ ms, t = .struct .appendable ms) ∨ (∃ ms, t = .struct .mutable ms) ∨ (∃ el, t = .seq el) ∨
+        (∃ d bs, t = .union true d bs)) ∧
       (size = 1 ∨ size = 2 ∨ size = 4 ∨ size = 8) ∨
     (∃ el n, t = .arr el n ∧ Spec.isPrimitive el = false) := by
   cases t with
@@ -67,12 +68,22 @@ theorem C10_lc_differences (t : Ty) (size : Nat) (h : Spec.lcDust t size ≠ Spe
   | str => simp [Spec.lcDust, Spec.lcStd, Spec.startsWithDheader] at h
   | enum hd ls x => simp [Spec.lcDust, Spec.lcStd, Spec.startsWithDheader] at h
   | wstr => simp [Spec.lcDust, Spec.lcStd, Spec.startsWithDheader] at h
-  | union _ _ => simp [Spec.lcDust, Spec.lcStd, Spec.startsWithDheader] at h
+  | union app d bs =>
+    cases app with
+    | false => simp [Spec.lcDust, Spec.lcStd, Spec.startsWithDheader] at h
+    | true =>
+      refine Or.inr (Or.inl ⟨Or.inr (Or.inr (Or.inr ⟨_, _, rfl⟩)), ?_⟩)
+      simp only [Spec.lcDust, Spec.lcStd, Spec.startsWithDheader] at h
+      by_cases h1 : size = 1; · exact Or.inl h1
+      by_cases h2 : size = 2; · exact Or.inr (Or.inl h2)
+      by_cases h4 : size = 4; · exact Or.inr (Or.inr (Or.inl h4))
+      by_cases h8 : size = 8; · exact Or.inr (Or.inr (Or.inr h8))
+      simp [h1, h2, h4, h8] at h
   | seq el =>
     cases el with
     | prim p => exact Or.inl ⟨p, rfl⟩
     | _ =>
-      refine Or.inr (Or.inl ⟨Or.inr (Or.inr ⟨_, rfl⟩), ?_⟩)
+      refine Or.inr (Or.inl ⟨Or.inr (Or.inr (Or.inl ⟨_, rfl⟩)), ?_⟩)
       simp only [Spec.lcDust, Spec.lcStd, Spec.startsWithDheader, Spec.isPrimitive] at h
       by_cases h1 : size = 1; · exact Or.inl h1
       by_cases h2 : size = 2; · exact Or.inr (Or.inl h2)
